@@ -148,6 +148,13 @@ pub fn run(tier: &str, seed: u64, dir: &str) {
             }
         }
     }
+    // long runs of unanswered join attempts (join walk, bias of several tries)
+    for region in REGIONS {
+        for k in 0..(if thorough { 40 } else { if is_fixed(region) { 10 } else { 2 } }) {
+            let op = join_walk("C04", &mut rng, region, k);
+            sink.case(&op, &eval(&op), "join-walk", true);
+        }
+    }
     let per_region = if thorough { 4000 } else { 220 };
     for region in REGIONS {
         for i in 0..per_region {
